@@ -17,10 +17,10 @@ pub struct Plan {
     pub faults: Vec<(u64, Payload)>, // (fault point index, payload kind)
     pub seed: u64,
 }
-pub const OP_NAMES: [&str; 37] = [
+pub const OP_NAMES: [&str; 39] = [
     "new_conn", "drop_conn", "add", "echo_string", "echo_vec", "sum_ref", "len_ref", "count_str", "sum_slice", "try_div", "bump", "many",
     "call_fn", "call_fnmut", "take_boxed_fn", "call_stored", "drop_stored", "take_leaf", "ping_leaves", "drop_leaves", "make_leaf", "use_leaf",
-    "drop_leaf", "make_fn", "use_fn", "drop_fn", "spawn", "poll", "fire", "cancel", "join", "concat", "spawn_async", "deref", "map_reading", "pad", "spawn_lazy",
+    "drop_leaf", "make_fn", "use_fn", "drop_fn", "spawn", "poll", "fire", "cancel", "join", "concat", "spawn_async", "deref", "map_reading", "pad", "spawn_lazy", "spawn_small", "skew_enum",
 ];
 pub fn op_code(name: &str) -> i64 {
     OP_NAMES.iter().position(|n| *n == name).map(|x| x as i64).unwrap_or(2)
@@ -459,6 +459,67 @@ pub fn run_world(plan: &Plan, kind: WorldKind) -> RunLog {
                     WORLD.with(|w| w.borrow_mut().woken.insert((idx, 0)));
                     "ok".into()
                 }
+                "skew_enum" => {
+                    use crate::iface::skew::{newer, older};
+                    use older::EnumSvc as _;
+                    let x = b as u32;
+                    let which = a.unsigned_abs() % 3;
+                    match kind {
+                        WorldKind::Direct => {
+                            // what the pair (newer caller, older implementation) must amount to
+                            let imp = older::OldImpl(Guard::new("svc-old"));
+                            match which {
+                                0 => format!("ok {}", imp.tag(&older::Sig::A(x))),
+                                1 => format!("ok {}", imp.tag(&older::Sig::B(x))),
+                                _ => "refused".to_string(),
+                            }
+                        }
+                        WorldKind::Abi => {
+                            use newer::EnumSvc as _;
+                            let imp: Box<dyn older::EnumSvc> = Box::new(older::OldImpl(Guard::new("svc-old")));
+                            let conn = match unsafe { AbiConnection::<dyn newer::EnumSvc>::from_boxed_trait_for_test(<dyn older::EnumSvc as savefile_abi::AbiExportable>::ABI_ENTRY, imp) } {
+                                Ok(c) => c,
+                                Err(e) => return format!("error {:?}", e),
+                            };
+                            let arg = match which {
+                                0 => newer::Sig::A(x),
+                                1 => newer::Sig::B(x),
+                                _ => newer::Sig::C(x),
+                            };
+                            if which < 2 {
+                                format!("ok {}", conn.tag(&arg))
+                            } else {
+                                match catch_unwind(AssertUnwindSafe(|| conn.tag(&arg))) {
+                                    Ok(v) => format!("ACCEPTED a variant the implementation does not know: it returned {}", v),
+                                    Err(_) => {
+                                        let _ = simcore::take_panic();
+                                        "refused".to_string()
+                                    }
+                                }
+                            }
+                        }
+                    }
+                }
+                "spawn_small" => {
+                    // futures whose output is a bool / a char (one and four bytes, with bit patterns that are not values)
+                    let Some(i) = pick(&conns, a) else { return "noop".into() };
+                    if tasks.len() >= 6 {
+                        return "noop".into();
+                    }
+                    let ev = (b.unsigned_abs() % 8) as u32;
+                    max_event = max_event.max(ev + 1);
+                    let f: Pin<Box<dyn Future<Output = u32>>> = if c % 2 == 0 {
+                        let inner = conns[i].as_ref().unwrap().fut_bool(ev);
+                        Box::pin(async move { inner.await as u32 })
+                    } else {
+                        let inner = conns[i].as_ref().unwrap().fut_char(ev);
+                        Box::pin(async move { inner.await as u32 })
+                    };
+                    tasks.push(Task { fut: Some(f), owner: None, gen: 0, wakers: vec![], done: false, polls: 0, stable: false });
+                    let idx = tasks.len() - 1;
+                    WORLD.with(|w| w.borrow_mut().woken.insert((idx, 0)));
+                    "ok".into()
+                }
                 "spawn_lazy" => {
                     // a future that registers the waker of its FIRST poll for all its events and never again; legal
                     // with an executor that keeps handing out the same waker, so this task gets a stable waker
@@ -753,7 +814,7 @@ pub fn gen_plan(seed: u64) -> Plan {
     let fam_conn = rng.chance(1, 2);
     let mut pool: Vec<&str> = vec!["add"];
     if fam_data {
-        pool.extend(["deref", "map_reading", "echo_string", "echo_string", "join", "join", "concat", "concat", "echo_vec", "sum_ref", "pad", "len_ref", "count_str", "sum_slice", "try_div", "bump", "many"]);
+        pool.extend(["deref", "map_reading", "echo_string", "echo_string", "join", "join", "concat", "concat", "echo_vec", "sum_ref", "pad", "skew_enum", "len_ref", "count_str", "sum_slice", "try_div", "bump", "many"]);
     }
     if fam_cb {
         pool.extend(["call_fn", "call_fn", "call_fnmut"]);
@@ -762,7 +823,7 @@ pub fn gen_plan(seed: u64) -> Plan {
         pool.extend(["take_boxed_fn", "take_boxed_fn", "call_stored", "drop_stored", "take_leaf", "take_leaf", "ping_leaves", "drop_leaves", "make_leaf", "use_leaf", "drop_leaf", "make_fn", "use_fn", "drop_fn"]);
     }
     if fam_fut {
-        pool.extend(["spawn", "spawn", "spawn_lazy", "spawn_async", "spawn_async", "poll", "poll", "poll", "poll", "fire", "fire", "cancel"]);
+        pool.extend(["spawn", "spawn", "spawn_lazy", "spawn_small", "spawn_async", "spawn_async", "poll", "poll", "poll", "poll", "fire", "fire", "cancel"]);
     }
     if fam_conn {
         pool.extend(["new_conn", "new_conn", "drop_conn"]);
